@@ -77,6 +77,56 @@ PROPS = {
         ],
         "not_covered": ["Files::sort", "Files::specification"],
     },
+    "C12": {
+        "units": ["strong"],
+        "level": "other",
+        "property_obligations": ["StrongEquivalenceTask::transition_axioms", "transition", "lemma_transition_true", "lemma_transition_cover", "Predicate::to_formula",
+                                 "Program::predicates", "lemma_program_preds"],
+        "carriers": ["Formula::here", "Formula::there", "prepend_predicate", "Formula::apply", "Formula::free_variables", "Formula::quantify", "Rule::predicates", "Body::predicates"],
+        "explanation": "h-implies-t axioms: Verus proves that the real StrongEquivalenceTask::transition_axioms (nested fn transition, Predicate::to_formula incl. its X{i} names, here/there, "
+                       "free_variables, quantify, asp::Program::predicates and the queries below it) returns exactly one formula forall X1..Xn (hp(X) -> tp(X)) per predicate occurring in either program "
+                       "(lemma_transition_cover: every occurring predicate is covered, nothing else is emitted), and that each such formula is true in every classical interpretation coupled to an HT interpretation "
+                       "with H subset of T (lemma_transition_true) — so these axioms alone cannot make a problem provable. NOT covered: the symbol-order chain and the declarations (written only inside "
+                       "Display for Problem through core::fmt) and the static preamble standard_interpretation.p.",
+        "assumptions": [
+            "symbol ordering axioms (Vec::sort_unstable + windows(2) inside Display for Problem): NOT under contract (fmt code)",
+            "standard_interpretation.p (static preamble text): truth assumed, not code",
+            "T8/D6: format!(\"X{i}\") is \"X\" followed by the decimal numeral of i",
+        ],
+        "not_covered": ["symbol_order axioms", "standard preamble"],
+    },
+    "C13": {
+        "units": ["outline"],
+        "level": "other",
+        "property_obligations": ["Formula::inductive_lemma", "lemma_induction", "lemma_induct", "lemma_ucl_valid"],
+        "carriers": ["Formula::universal_closure"],
+        "explanation": "Inductive lemmas: Verus proves on the real CheckInternal::inductive_lemma (with the real unbox, universal_closure, free_variables, quantify and the C17 contract of substitute) that whenever it "
+                       "returns Ok((base, step)), base and step together imply the lemma `forall V (N >= n -> F)` in every classical interpretation under every sort-respecting assignment — by an induction over the "
+                       "integers k >= n inside Verus (lemma_induct), including n negative, N also bound inside F, and N not among the quantified variables. NOT under contract: definition acceptance "
+                       "(CheckInternal::definition), GeneralLemma::try_from, ProofOutline::from_specification and the sequencing loop of AssembledExternalEquivalenceTask::decompose (enumerate/format!/iter::once/flat_map).",
+        "assumptions": [
+            "Formula::substitute is used through its contract subst_ht, which is PROVED in unit subst (C17) on the same working tree",
+            "IndexSet == is set equality (indexmap documentation); IndexSet::from_iter(vec) = insertion-ordered dedup",
+            "CheckInternal::definition, GeneralLemma::try_from, ProofOutline::from_specification, AssembledExternalEquivalenceTask::decompose: NOT verified (the 'used only after established' half of C13 is not decided)",
+        ],
+        "not_covered": ["CheckInternal::definition", "lemma sequencing in AssembledExternalEquivalenceTask::decompose", "GeneralLemma::try_from"],
+    },
+    "C03": {
+        "units": ["gamma", "strong"],
+        "level": "other",
+        "property_obligations": ["theorem_c05", "lemma_gamma", "StrongEquivalenceTask::transition_axioms", "lemma_transition_cover", "lemma_transition_true"],
+        "carriers": ["Formula::gamma", "Formula::here", "Formula::there", "prepend_predicate", "Formula::apply"],
+        "explanation": "Two of the three mechanisms of C03 are under contract: (1) gamma reduces HT satisfaction to classical satisfaction of the h/t copies (= C05, proved on the real code), and "
+                       "(2) transition_axioms emits exactly one true axiom hp -> tp for EVERY predicate occurring in either program (proved on the real code, incl. asp::Program::predicates), which is what makes "
+                       "a refuting interpretation have h-extents included in t-extents. NOT under contract: StrongEquivalenceTask::decompose itself (which side becomes axioms/conjectures per direction, the two simplification "
+                       "stages = C07, eq-break = C19, decomposition) — closures over format!, flat_map and Compose are outside Verus' subset; tau*/mu correctness (= C01/C08).",
+        "assumptions": [
+            "StrongEquivalenceTask::decompose routing and flag plumbing: NOT verified",
+            "Gamma for Theory (map/collect over the formulas): NOT verified",
+            "tau_star / mu translations are correct (C01, C08): not part of this check",
+        ],
+        "not_covered": ["StrongEquivalenceTask::decompose", "Problem::add_theory", "decompose_independent/sequential"],
+    },
     "C17": {
         "units": ["subst"],
         "level": "proof",
